@@ -69,6 +69,8 @@ def base_env(tier, seed, outdir, scratch, cfg=None, fuzz=False):
         'ASAN_SYMBOLIZER_PATH': shutil.which('llvm-symbolizer') or shutil.which('llvm-symbolizer-14') or '',
         'VERIF_REPO_DIR': REPO,
     })
+    for fl in (cfg or {}).get('extra_flavours', []):
+        e['VERIF_BIN_' + fl] = binpath((cfg or {})['bin'], fl)
     if (cfg or {}).get('case_timeout'):
         e['VERIF_CASE_TIMEOUT'] = str(cfg['case_timeout'])
     e.pop('RC_PARAMS', None)
